@@ -1161,3 +1161,217 @@ def C05(ctx):
                     fail('C05', 'pending count %d but %d occurrences are retained (%s)' % (n, len(pending), pending), ctx, i)
         classes['steps'] += 1
     return dict(nontrivial=nontrivial, classes=classes)
+
+
+# ---------------------------------------------------------------------------------------------- C11
+def C11(ctx):
+    """Terminate / interrupt states: while a terminate state is entered nothing at all happens for any other occurrence;
+    while an interrupt state is entered the same holds except for its end-interrupt event types, which are processed
+    normally (step compared with the model); swallowed occurrences are never replayed. Model-free ledger invariant plus a
+    model comparison for the end-interrupt steps."""
+    st = ctx.static
+    root = ctx.spec['root']
+    evname = [e['name'] for e in ctx.spec['events']]
+    kinds = {s: sd['kind'] for s, sd in root['states'].items()}
+    endev = {s: set(sd.get('end_events') or []) for s, sd in root['states'].items()}
+    classes = Counter()
+    nontrivial = []
+    blocking = {}        # entered blocking state -> event description current when it was entered
+    swallowed = set()
+    etype = {}
+    in_sync = True
+    for i, c in enumerate(ctx.case):
+        if i >= len(ctx.sut):
+            break
+        toks = ctx.sut[i]
+        opk = c['op']
+        if any(t.startswith('ESCAPED') for t in toks):
+            fail('C11', 'an exception escaped the library', ctx, i)
+        if opk in ('P', 'Q'):
+            etype[c['payload']] = evname[c['ev']]
+        was_blocked = bool(blocking)
+        blocked_at_start = dict(blocking)
+        for t in toks:
+            m = _sub_re.match(t)
+            if m:
+                etype[int(m.group(3))] = evname[int(m.group(2))]
+                continue
+            p = parse(t)
+            if not p or p[0] not in ('g', 'a', 'en', 'ex', 'nt', 'xc'):
+                continue
+            d = p[3]
+            pl = payload_of(p)
+            if pl is not None and pl in swallowed:
+                fail('C11', 'occurrence #%d was swallowed while the machine was blocked but is processed later (%s)' % (pl, t), ctx, i)
+            if blocking and opk != 'T':
+                term = [s for s in blocking if kinds[s] == 'terminate']
+                same = any(d == cur for cur in blocking.values())
+                tn = d.split('#')[0]
+                is_end = (not term) and any(tn in endev[s] for s in blocking if kinds[s] == 'interrupt')
+                if not same and not is_end:
+                    fail('C11', 'behaviour %s ran although %s state %s is active' % (t, 'terminate' if term else 'interrupt', sorted(blocking)), ctx, i)
+                if is_end and not same:
+                    classes['end_interrupt_behaviour'] += 1
+            if p[0] == 'en' and kinds.get(p[1]) in ('terminate', 'interrupt'):
+                blocking[p[1]] = d
+            elif p[0] == 'ex' and p[1] in blocking:
+                del blocking[p[1]]
+        if opk == 'T':
+            blocking.clear()
+        # submissions made while blocked (at op start) that are not end-interrupt events are swallowed
+        if was_blocked and opk == 'P':
+            term = [s for s in blocked_at_start if kinds[s] == 'terminate']
+            tn = evname[c['ev']]
+            is_end = (not term) and any(tn in endev[s] for s in blocked_at_start if kinds[s] == 'interrupt')
+            if not is_end:
+                swallowed.add(c['payload'])
+                if ids_of(toks) != ids_before(ctx, i):
+                    fail('C11', 'active configuration changed while the machine is blocked', ctx, i)
+                classes['swallowed'] += 1
+            else:
+                # processed normally in all regions: compare with the model
+                if in_sync and [t for t in toks if not t.startswith('ids{')] != [t for t in ctx.model[i] if not t.startswith('ids{')]:
+                    fail('C11', 'end-interrupt event %s is not processed as the model predicts' % tn, ctx, i)
+                classes['end_interrupt_step'] += 1
+                if len(root['regions']) > 1:
+                    classes['end_interrupt_multi_region'] += 1
+            nontrivial.append((ctx.spec['id'], tuple(sorted(blocked_at_start)), tn, is_end, ids_before(ctx, i)))
+        if was_blocked and opk == 'X':
+            classes['execute_queued_while_blocked'] += 1
+            nontrivial.append((ctx.spec['id'], tuple(sorted(blocked_at_start)), 'X', c.get('mode'), ids_before(ctx, i)))
+        if in_sync and not sync_active(ctx, i, Counter()):
+            in_sync = False
+            classes['diverged_elsewhere'] += 1
+        classes['steps'] += 1
+    return dict(nontrivial=nontrivial, classes=classes)
+
+
+# ---------------------------------------------------------------------------------------------- C17
+def flags_of_state(ctx, mach, s):
+    sd = ctx.static.machine[mach]['states'][s]
+    if sd['kind'] == 'sub':
+        return set(sd['machine'].get('as_state', {}).get('flags') or [])
+    return set(sd.get('flags') or [])
+
+
+def config_flags(ctx, mach, ids):
+    """flags carried by the active configuration of machine `mach` (recursively), given ids by machine"""
+    out = set()
+    for s in ids.get(mach, []):
+        if s not in ctx.static.machine[mach]['states']:
+            continue
+        out |= flags_of_state(ctx, mach, s)
+        if ctx.static.machine[mach]['states'][s]['kind'] == 'sub':
+            out |= config_flags(ctx, s, ids)
+    return out
+
+
+def C17(ctx):
+    """Flags are a pure function of the active configuration: at every quiescent point, for every active machine and
+    flag, is_flag_active<F>() <=> some state of its active configuration (recursively) carries F, and the AND form <=>
+    every region's active state carries F (only where that level has only simple active states). Inside behaviours the
+    answer and the reported ids equal the model's policy-defined configuration."""
+    st = ctx.static
+    spec = ctx.spec
+    rootname = spec['root']['name']
+    flags = spec.get('flags', [])
+    classes = Counter()
+    nontrivial = []
+    started = False
+    in_sync = True
+    for i, c in enumerate(ctx.case):
+        if i >= len(ctx.sut):
+            break
+        toks = ctx.sut[i]
+        if c['op'] == 'S':
+            started = True
+        if c['op'] == 'T':
+            started = False
+        # probes inside behaviours: compare with the model (configuration per switch policy)
+        if in_sync:
+            ps = [t for t in toks if t.startswith('pb{')]
+            pm = [t for t in ctx.model[i] if t.startswith('pb{')]
+            if ps != pm:
+                k = 0
+                while k < min(len(ps), len(pm)) and ps[k] == pm[k]:
+                    k += 1
+                fail('C17', 'flags/ids observed inside a behaviour differ from the policy-defined configuration: %s vs model %s'
+                     % (ps[k] if k < len(ps) else None, pm[k] if k < len(pm) else None), ctx, i)
+            if ps:
+                classes['probes_inside_behaviours'] += len(ps)
+        pb = [t for t in toks if t.startswith('PB{')]
+        if pb and started:
+            pr = parse_probe(pb[-1])
+            ids = {k: v for k, v in pr.items() if k in st.machine}
+            for mach in st.active_machines(ids):
+                cf = config_flags(ctx, mach, ids)
+                m = st.machine[mach]
+                simple_level = all(m['states'][s]['kind'] != 'sub' for s in ids.get(mach, []) if s in m['states'])
+                per_region = [flags_of_state(ctx, mach, s) for s in ids.get(mach, []) if s in m['states']]
+                for f in flags:
+                    v = pr.get('fl:%s:%s' % (mach, f))
+                    if not v:
+                        continue
+                    got_or, got_and = v[0][0] == '1', v[0][1] == '1'
+                    exp_or = f in cf
+                    if got_or != exp_or:
+                        fail('C17', 'is_flag_active<%s>() on %s is %s but the active configuration %s %s it'
+                             % (f, mach, got_or, {k: ids[k] for k in st.active_machines(ids)}, 'carries' if exp_or else 'does not carry'), ctx, i)
+                    if simple_level:
+                        exp_and = all(f in x for x in per_region)
+                        if got_and != exp_and:
+                            fail('C17', 'is_flag_active<%s, AND>() on %s is %s, expected %s for active states %s'
+                                 % (f, mach, got_and, exp_and, ids.get(mach)), ctx, i)
+                        if exp_or != exp_and:
+                            classes['or_differs_from_and'] += 1
+                            nontrivial.append((spec['id'], mach, f, tuple(tuple(ids[k]) for k in st.active_machines(ids))))
+                    levels = [mm for mm in st.active_machines(ids) if mm != mach and mm in subtree(ctx, mach)]
+                    if levels and exp_or and not any(f in x for x in per_region):
+                        classes['flag_only_in_nested_level'] += 1
+                        nontrivial.append((spec['id'], mach, f, 'nested', tuple(tuple(ids[k]) for k in st.active_machines(ids))))
+            classes['quiescent_probes'] += 1
+        if in_sync and not sync_active(ctx, i, Counter()):
+            in_sync = False
+    return dict(nontrivial=nontrivial, classes=classes)
+
+
+# ---------------------------------------------------------------------------------------------- C19
+def C19(ctx):
+    """Active-state-switch policy: what behaviours observe inside each phase of a transition (reported ids, flags)
+    equals the documented policy table (model R-policy); with the probes removed the trace equals the policy-independent
+    model trace, so the four policies are indistinguishable outside transitions."""
+    st = ctx.static
+    classes = Counter()
+    nontrivial = []
+    pol = ctx.spec['root'].get('policy', 'default')
+    for i, c in enumerate(ctx.case):
+        if i >= len(ctx.sut):
+            break
+        toks, mt = ctx.sut[i], ctx.model[i]
+        a = [t for t in toks if not t.startswith('pb{')]
+        b = [t for t in mt if not t.startswith('pb{')]
+        if a != b:
+            k = 0
+            while k < min(len(a), len(b)) and a[k] == b[k]:
+                k += 1
+            fail('C19', 'trace (probes removed) under policy %s differs from the policy-independent model at token %d: %s vs %s'
+                 % (pol, k, a[k] if k < len(a) else None, b[k] if k < len(b) else None), ctx, i)
+        # probes: compare one by one, remembering the behaviour that hosted each probe
+        ps = [(toks[k - 1] if k else '', t) for k, t in enumerate(toks) if t.startswith('pb{')]
+        pm = [(mt[k - 1] if k else '', t) for k, t in enumerate(mt) if t.startswith('pb{')]
+        if ps != pm:
+            k = 0
+            while k < min(len(ps), len(pm)) and ps[k] == pm[k]:
+                k += 1
+            fail('C19', 'policy %s: ids/flags observed from behaviour %s are %s, the policy table gives %s'
+                 % (pol, ps[k][0] if k < len(ps) else None, ps[k][1] if k < len(ps) else None, pm[k][1] if k < len(pm) else None), ctx, i)
+        for host, t in ps:
+            p = parse(host)
+            if p and p[0] in ('g', 'a', 'en', 'ex'):
+                phase = {'g': 'guard', 'a': 'action', 'en': 'entry', 'ex': 'exit'}[p[0]]
+                classes['probe_in_' + phase] += 1
+                # non-trivial: probe hosted by a behaviour of an external transition (the op has an exit and an entry)
+                if any(x.startswith('ex:') for x in toks) and any(x.startswith('en:') for x in toks):
+                    nontrivial.append((ctx.spec['id'], pol, phase, host.split('/')[0], t))
+        classes['steps'] += 1
+    return dict(nontrivial=nontrivial, classes=classes)
